@@ -329,3 +329,33 @@ Example numq_div_ex : neqb (ndiv n1 n4) (QF (1 # 4) false) = true.
 Proof. vm_compute. reflexivity. Qed.
 
 Print Assumptions NumQLaws.
+
+(* ---------- the arithmetic laws ---------- *)
+
+Lemma Qle_bool_compat_l x y c : x == y -> Qle_bool x c = Qle_bool y c.
+Proof.
+  intro E. destruct (Qle_bool x c) eqn:Hx; destruct (Qle_bool y c) eqn:Hy; try reflexivity.
+  - apply Qle_bool_iff in Hx. rewrite E in Hx. apply Qle_bool_iff in Hx. congruence.
+  - apply Qle_bool_iff in Hy. rewrite <- E in Hy. apply Qle_bool_iff in Hy. congruence.
+Qed.
+
+Lemma Qabs_sub_sym a b : Qabs (b - a) == Qabs (a - b).
+Proof.
+  assert (E : b - a == - (a - b)) by ring.
+  rewrite E. apply Qabs_opp.
+Qed.
+
+#[export] Instance NumQArith : ArithLaws NumQ NumQLaws.
+Proof.
+  split.
+  - (* abs_sub_sym *)
+    intros [a i| | |] [b j| | |] [c k| | |]; cbn; try reflexivity.
+    apply Qle_bool_compat_l, Qabs_sub_sym.
+  - (* div_one *)
+    intros [a i| | |] H; unfold ok in *; cbn in *; try discriminate H.
+    + split; [reflexivity|]. apply sq_eq. field.
+    + split; reflexivity.
+    + split; reflexivity.
+Qed.
+
+Print Assumptions NumQArith.
